@@ -44,6 +44,13 @@ EXTERNAL_SIGS: Dict[str, List[str]] = {
     "enumerate": ["iterable", "start"],
 }
 
+# instance methods of library classes the package uses (an unbound call C.m(obj, ...) is obj.m(...))
+INSTANCE_METHODS = {("IntervalTree", m) for m in ("add", "discard", "remove", "addi", "overlap", "at", "envelop",
+                                                  "begin", "end", "clear", "update", "overlaps")} | \
+    {("MultiDiGraph", m) for m in ("add_edge", "remove_edge", "add_node", "remove_node", "edges", "in_edges",
+                                   "out_edges", "number_of_edges", "clear", "has_edge")} | \
+    {("SortedDict", m) for m in ("irange", "keys", "values", "items", "get", "pop", "clear")}
+
 FuncT = (ast.FunctionDef, ast.AsyncFunctionDef)
 ScopeT = (ast.FunctionDef, ast.AsyncFunctionDef, ast.Lambda, ast.ClassDef)
 CompT = (ast.ListComp, ast.SetComp, ast.DictComp, ast.GeneratorExp)
@@ -1798,6 +1805,36 @@ class Normaliser:
                     changed = True
                     rep.shapes += 1
                     continue
+                # S[ {k1: v1, k2: v2}[key] ]   ->   if key == k1: S[v1] elif key == k2: S[v2] else: raise KeyError(key)
+                if isinstance(st, (ast.Expr, ast.Assign, ast.Return)) and st.value is not None:
+                    tabs = [n_ for n_ in ast.walk(st.value) if isinstance(n_, ast.Subscript) and isinstance(n_.value, ast.Dict)
+                            and isinstance(n_.ctx, ast.Load) and n_.value.keys and all(k_ is not None for k_ in n_.value.keys)]
+                    if len(tabs) == 1 and len(tabs[0].value.keys) <= 6 and Normaliser._atomic(tabs[0].slice) \
+                            and id(tabs[0]) in _once_positions(st.value):
+                        tab = tabs[0]
+                        first_effect = [n_ for n_ in ast.walk(st.value) if isinstance(n_, ast.Call) and _before(n_, tab)
+                                        and not _contains(n_, tab)]
+                        if not first_effect:
+                            chain: List[ast.stmt] = [ast.copy_location(ast.Raise(exc=ast.Call(
+                                func=ast.Name(id="KeyError", ctx=ast.Load()), args=[copy.deepcopy(tab.slice)], keywords=[]),
+                                cause=None), st)]
+                            for k_, v_ in reversed(list(zip(tab.value.keys, tab.value.values))):
+                                class RT(ast.NodeTransformer):
+                                    def visit_Subscript(self, nd: ast.Subscript) -> ast.AST:
+                                        if isinstance(nd.value, ast.Dict) and ast.dump(nd) == dumped:
+                                            return copy.deepcopy(v_)
+                                        return self.generic_visit(nd)
+                                dumped = ast.dump(tab)
+                                one = RT().visit(copy.deepcopy(st))
+                                test = ast.Compare(left=copy.deepcopy(tab.slice), ops=[ast.Eq()], comparators=[copy.deepcopy(k_)])
+                                chain = [ast.copy_location(ast.If(test=test, body=[one], orelse=chain), st)]
+                            for n_ in ast.walk(chain[0]):
+                                if isinstance(n_, (ast.expr, ast.stmt)) and not hasattr(n_, "lineno"):
+                                    ast.copy_location(n_, st)
+                            out.extend(block(chain))
+                            changed = True
+                            rep.shapes += 1
+                            continue
                 # for T in (<literal>, ...): S   -> S once per element; with the body a single
                 # ``if c: ...; break`` (and an optional else) -> an if/elif chain
                 if isinstance(st, ast.For) and isinstance(st.iter, (ast.Tuple, ast.List)) and not st.iter.elts:
@@ -2141,6 +2178,16 @@ class Normaliser:
                         node.args[0] = node.args[0].args[0]
                         changed = True
                         rep.shapes += 1
+                # ImportedClass.method(obj, args)  ->  obj.method(args)   (obj an instance of that class)
+                if isinstance(f, ast.Attribute) and isinstance(f.value, ast.Name) and f.value.id[:1].isupper() \
+                        and f.value.id in norm_absimp and norm_absimp[f.value.id][1] and node.args \
+                        and not isinstance(node.args[0], ast.Starred) and Normaliser._atomic(node.args[0]) \
+                        and not isinstance(node.args[0], ast.Constant) and not f.attr.startswith("__") \
+                        and stores.get(f.value.id, 0) == 0 and (norm_absimp[f.value.id][1], f.attr) in INSTANCE_METHODS:
+                    changed = True
+                    rep.shapes += 1
+                    return _set_loc(ast.Call(func=ast.Attribute(value=node.args[0], attr=f.attr, ctx=ast.Load()),
+                                             args=list(node.args[1:]), keywords=list(node.keywords)), node)
                 if isinstance(f, ast.Name) and f.id == "getattr" and len(node.args) == 2 and not node.keywords \
                         and isinstance(node.args[1], ast.Constant) and isinstance(node.args[1].value, str) \
                         and node.args[1].value.isidentifier():
@@ -2841,6 +2888,20 @@ class Normaliser:
         _lit0 = literal
 
         def literal(e: ast.AST) -> bool:  # noqa: F811
+            if isinstance(e, ast.Dict) and e.keys and all(k is not None for k in e.keys):
+                saved = nested_in_tuple[0]
+                nested_in_tuple[0] = True
+                try:
+                    def key_ok(k: ast.AST) -> bool:
+                        if isinstance(k, ast.Constant):
+                            return True
+                        p_ = attr_path_(k)          # EnumClass.MEMBER of a class of this module / imported
+                        return bool(p_) and len(p_) == 2 and (p_[0] in toplevel or p_[0] in imported) and not counts.get(p_[0])
+                    return all(key_ok(k) for k in e.keys) and all(
+                        literal(v) or (attr_path_(v) is not None and len(attr_path_(v)) >= 2 and (
+                            attr_path_(v)[0] in toplevel or attr_path_(v)[0] in imported)) for v in e.values)
+                finally:
+                    nested_in_tuple[0] = saved
             if isinstance(e, (ast.Tuple, ast.List)):
                 saved = nested_in_tuple[0]
                 nested_in_tuple[0] = True
@@ -2882,6 +2943,13 @@ class Normaliser:
                 if any(isinstance(x, ast.ImportFrom) and any(a.name == nm for a in x.names)
                        for t in self.trees.values() for x in ast.walk(t)):
                     continue
+                if isinstance(val, ast.Dict):
+                    # a table: only ever indexed (T[k]) — anything else could mutate or hand it out
+                    uses = [x for x in ast.walk(tree) if isinstance(x, ast.Name) and x.id == nm and isinstance(x.ctx, ast.Load)]
+                    subs = [x for x in ast.walk(tree) if isinstance(x, ast.Subscript) and isinstance(x.value, ast.Name)
+                            and x.value.id == nm and isinstance(x.ctx, ast.Load)]
+                    if len(uses) != len(subs) or not uses:
+                        continue
                 cands[nm] = (st, val)
             self._class_constants(mod, tree, literal, counts, imported)
             if not cands:
